@@ -18,6 +18,7 @@ import (
 type Theory struct {
 	bv      bool
 	named32 bool
+	lemmas  map[string]bool // lemmas of the spec libraries this function's obligations may use
 }
 
 func (th Theory) Addr() Sort {
